@@ -245,6 +245,7 @@ pub(crate) fn on_receive(conn: Option<usize>, tcp: bool, size: Option<usize>) ->
 // Public wrappers around crate-private items.
 
 pub use crate::buffer::Buffer as VBuffer;
+pub use crate::socket::{Socket as VSocket, TcpSocketImpl as VTcpSocket, UdpSocketImpl as VUdpSocket};
 pub use crate::utils::{error_by_expected_size, retry_on_timeout, u8_lower_upper};
 
 /// Which string decoder a reader operation uses.
